@@ -303,7 +303,7 @@ def run_once(probes):
     r, _, _ = core.run_program({"main.ms": src}, cpu=20, typed=True, tag="c14")
     if r.cls in ("wall_timeout", "cpu_timeout", "spawn_error"):
         return "inconclusive", 0, [], r, src
-    if r.cls == "fail" and core.BANNER not in r.err and "Did not compile successfully" in r.out + r.err:
+    if core.compile_rejected(r):
         return "rejected", 0, [], r, src
     recs = records(r.out)
     n = len(recs) // 2
